@@ -132,3 +132,16 @@ Proof. exact snapshot_survives_second. Qed.
 
 Print Assumptions C13_oracle_holds_on_model_with_pairs.
 Print Assumptions C13_snapshot_survives_queued_request.
+
+(** *** the snapshot fan-out: with the gate open and the request fanned out (the name lookup on the last RW
+    replica succeeds and the name is new: the oracle's guard [snap_called]), every listed replica whose call
+    fails is marked ERR.  When the lookup refuses the request nobody is called and nobody is marked
+    ([c13_accepts_refused_existing_name], [c13_accepts_refused_failed_lookup] in Ctl/OracleProofs18.v) *)
+Theorem C13_failed_snapshot_call_leaves_service : forall s n fs r0 a,
+  struct_ok s -> status_ok s -> count_rw (replicas s) = rf s -> length (replicas s) = rf s ->
+  last_rw s = Some r0 -> flt fs r0 KHttp = false -> existsb (Nat.eqb n) (f_chain (wget (w s) r0)) = false ->
+  In a (keys (replicas s)) -> flt fs a KSnap = true ->
+  ~ In a (in_service (replicas (fst (do_snapshot s n fs)))).
+Proof. exact snapshot_failed_not_in_service. Qed.
+
+Print Assumptions C13_failed_snapshot_call_leaves_service.
